@@ -12,6 +12,8 @@ THEOREMS = ["IwModel.C09." + t for t in (
     "del_keeps_cursors", "cursor_del_keeps_cursors", "cursVia_lookup",
     "history_keeps_cursor", "history_forward", "scan_through_history", "scan_back_through_history",
     "returned_is_live", "untouched_once", "f38_witness")]
+# C functions this check's models mirror (source-text fingerprints are recorded in the evidence, see translate/funchash.py)
+MODELLED_FUNCS = {'src/kv/iwkv.c': ['_sblk_addkv', '_sblk_addkv2', '_sblk_rmkv', '_sblk_updatekv', '_lx_split_addkv', '_lx_del_sblk_lw', '_sblk_sync_mm', '_cursor_to_lr']}
 MANIFEST = dict(
     level="proof",
     text=("Lean 4 theorems over the cursor fix-ups of the node-level KV model (insert, remove, split at the pivot, node removal) "
